@@ -12,10 +12,11 @@
 (*             Z3 translation of the result, nodes = per-node metadata.    *)
 (* k = "equiv" a utility whose output r must be equivalent to spec term w. *)
 (* k = "truth" is_true / is_false answer on term w.                        *)
-(* k = "struct" w and r must be the identical term (C08 replace).          *)
 (* k = "alpha"  ans = TRUE only if w and r are alpha-equivalent.           *)
+(* k = "subst" "canon" "cases" "dict" "revcases" "chop" "bytes" "z3abs"    *)
+(*     "outcome": utility events, clauses specified in UtilSem.tla.        *)
 (***************************************************************************)
-EXTENDS Term, Json, IOUtils, TLC
+EXTENDS Term, UtilSem, Json, IOUtils, TLC
 
 
 Asgs(e) == IF Len(e.asgs) = 0 THEN AllAsg(e.vars) ELSE {AsgOf(e.asgs[i]) : i \in 1..Len(e.asgs)}
@@ -28,6 +29,11 @@ ConcDivZero(t, A) ==
   LET f == Flat(t)
       nd == Cardinality({i \in 1..Len(f) : f[i][1] \in DivOps})
   IN \E j \in 1..nd : \A a \in A : IsZero(Divisors(f, a)[j])
+
+\* byte-reversal of a bit-vector whose width is not a multiple of 8: the documented condition under which
+\* claripy may answer with a claripy error (e.cerr: the exception is a ClaripyError) instead of an expression
+RECURSIVE NonByteReverse(_)
+NonByteReverse(t) == (t[1] = "Reverse" /\ Width(t[4][1]) % 8 # 0) \/ \E i \in 1..Len(t[4]) : NonByteReverse(t[4][i])
 
 SameMeaning(e) == e.w = e.r \/ LET fw == Flat(e.w) fr == Flat(e.r) IN \A a \in Asgs(e) : EvalF(fw, a) = EvalF(fr, a)
 
@@ -47,36 +53,31 @@ MetaBad(e) == UNION {NodeBad(e.nodes[i]) : i \in 1..Len(e.nodes)}
 
 FailingOp(e) ==
   IF e.out = "ZeroDiv" THEN (IF ConcDivZero(e.w, Asgs(e)) THEN {} ELSE {"zerodiv-unjustified"})
-  ELSE IF e.out # "ok" THEN {"outcome"}
+  ELSE IF e.out # "ok" THEN (IF e.cerr /\ NonByteReverse(e.w) THEN {} ELSE {"outcome"})
+  ELSE IF NonByteReverse(e.w) THEN {}       \* no SMT-LIB meaning to compare with
   ELSE (IF SameMeaning(e) THEN {} ELSE {"meaning"})
        \cup (IF Z3Agrees(e) THEN {} ELSE {"z3-translation"})
        \cup MetaBad(e)
 
-\* ---- utilities (C08/C09): r must be equivalent to the specification term w ----
-FailingEquiv(e) ==
-  IF e.out # "ok" THEN {"outcome"}
-  ELSE (IF SameMeaning(e) THEN {} ELSE {"meaning"}) \cup MetaBad(e)
-
-FailingStruct(e) == IF e.out # "ok" THEN {"outcome"} ELSE IF e.w = e.r THEN {} ELSE {"struct"}
-
-\* ---- C10: a True answer must be justified on every assignment ----
-FailingTruth(e) ==
-  IF e.out # "ok" THEN {"outcome"}
-  ELSE IF ~e.ans THEN {}
-  ELSE IF e.f = "is_true" THEN (IF \A a \in Asgs(e) : Holds(e.w, a) THEN {} ELSE {"is_true-overclaims"})
-  ELSE (IF \A a \in Asgs(e) : ~Holds(e.w, a) THEN {} ELSE {"is_false-overclaims"})
-
-\* ---- C08 identical(): True only for alpha-equivalent arguments ----
-FailingAlpha(e) ==
-  IF e.out # "ok" THEN {"outcome"}
-  ELSE IF e.ans /\ ~AlphaEq(e.w, e.r) THEN {"identical-overclaims"} ELSE {}
+\* ---- utilities (C08), Z3 round trip (C09), truth checks (C10): the clauses are specified in UtilSem.tla ----
+FailingEquiv(e) == UEquiv(e, Asgs(e))
+FailingTruth(e) == UTruth(e, Asgs(e))
+FailingAlpha(e) == UAlpha(e)
 
 Failing(e) ==
   CASE e.k = "op" -> FailingOp(e)
     [] e.k = "equiv" -> FailingEquiv(e)
-    [] e.k = "struct" -> FailingStruct(e)
     [] e.k = "truth" -> FailingTruth(e)
     [] e.k = "alpha" -> FailingAlpha(e)
+    [] e.k = "subst" -> USubst(e)
+    [] e.k = "canon" -> UCanon(e)
+    [] e.k = "cases" -> UCases(e, Asgs(e))
+    [] e.k = "dict" -> UDict(e, Asgs(e))
+    [] e.k = "revcases" -> URev(e, Asgs(e))
+    [] e.k = "chop" -> UChop(e, Asgs(e))
+    [] e.k = "bytes" -> UBytes(e, Asgs(e))
+    [] e.k = "z3abs" -> UZ3Abs(e, Asgs(e))
+    [] e.k = "outcome" -> UOutcome(e)
 
 \* NB: the trace is bound by LET inside the ASSUME: a top-level definition would be re-evaluated (the whole
 \* file re-parsed) at every reference Trace[i], making validation quadratic in the shard size.
